@@ -5,6 +5,7 @@ import (
 	"fmt"
 	"io"
 	"os"
+	"reflect"
 	"strings"
 	"syscall"
 	"testing"
@@ -33,9 +34,39 @@ var c10Errs = map[string]error{
 	// errors that call themselves temporary
 	"eagain":   syscall.EAGAIN,
 	"deadline": os.ErrDeadlineExceeded,
+	// error values whose dynamic type cannot be compared with == (a list of
+	// errors, a struct with a slice in it), and one that is a parser.Error
+	// without a position, as a source that forwards another parse's failure has
+	"errorList":   errorList{"first", "second"},
+	"errorStruct": errorStruct{msgs: []string{"wrapped"}},
+	"parserError": parser.Error{Name: "included.sh", Msg: "syntax error: forwarded"},
 }
 
-var c10ErrKinds = []string{"unexpectedEOF", "closedPipe", "wrappedEOF", "noProgress", "eagain", "deadline"}
+type errorList []string
+
+func (e errorList) Error() string { return strings.Join(e, "; ") }
+
+type errorStruct struct{ msgs []string }
+
+func (e errorStruct) Error() string { return strings.Join(e.msgs, "; ") }
+
+// sameErr: got is the read error want (the same value, or one that wraps it).
+func sameErr(got, want error) bool {
+	if reflect.TypeOf(want).Comparable() {
+		if reflect.TypeOf(got).Comparable() && got == want {
+			return true
+		}
+		return errors.Is(got, want)
+	}
+	for e := got; e != nil; e = errors.Unwrap(e) {
+		if reflect.DeepEqual(e, want) {
+			return true
+		}
+	}
+	return false
+}
+
+var c10ErrKinds = []string{"unexpectedEOF", "closedPipe", "wrappedEOF", "noProgress", "eagain", "deadline", "errorList", "errorStruct", "parserError"}
 
 // faultScanner delivers the first K runes of S and fails from then on.
 type faultScanner struct {
@@ -187,7 +218,7 @@ func checkC10(c c10Case) (bool, error) {
 	if _, isSyntax := r.err.(parser.Error); c.Any && isSyntax {
 		return true, nil
 	}
-	if r.err != c10Errs[c.Err] && !errors.Is(r.err, c10Errs[c.Err]) || c.Err == "wrappedEOF" && r.err == io.EOF {
+	if !sameErr(r.err, c10Errs[c.Err]) || c.Err == "wrappedEOF" && r.err == io.EOF {
 		return true, fmt.Errorf("the %s failed after %d units of %q with %q, but ParseCommands returned %q instead of the read error", c.Reader, c.K, c.Src, c10Errs[c.Err], r.err)
 	}
 	return true, nil
@@ -207,7 +238,7 @@ func checkC10Chunking(c c10Case) error {
 		done := make(chan outcome, 1)
 		go func() {
 			cmds, _, err := parser.ParseCommands(nil, "c10", fr)
-			o := outcome{n: len(cmds), read: err != nil && errors.Is(err, c10Errs[c.Err])}
+			o := outcome{n: len(cmds), read: err != nil && sameErr(err, c10Errs[c.Err])}
 			if err != nil {
 				o.err = err.Error()
 			}
